@@ -11,20 +11,18 @@ Property theorems only.  They speak about the executable model `DSymVerif.Inv.*`
 (Model/Invariants.lean, a statement-by-statement copy of src/fpgroups/invariants.rs over `Int`,
 tied to the code by the differential check) and the Spec `DSymVerif.SpecC14.*`, for ALL inputs.
 
-What is proved here, for ALL inputs:
+What is proved here, for ALL inputs (the model is over unbounded integers — since the `fix:`
+commit for finding F-C14-overflow the Rust code computes over `BigInt`, so this is its semantics):
   §1–§4  the arithmetic core (`gcdx`), the exponent-sum homomorphism (`relator_as_vector`) with
          rotation / conjugation invariance of the whole result, the divisibility pass, the output
-         format, termination of every loop, agreement of the instrumented model used by the driver;
+         format, termination of every loop;
   §5–§6  every elimination step is a unimodular 2×2-block operation; `diagonalize_in_place` ends
-         in a diagonal `D = U·A·V`, `det U, det V = ±1` (Mathlib matrices), under `SmallRun`, and
-         `SmallRun` follows from the instrumented bound `< isize::MAX`;
+         in a diagonal `D = U·A·V`, `det U, det V = ±1` (Mathlib matrices);
   §7     determinantal divisors are invariant under unimodular equivalence, equal the partial
          products of a diagonal divisibility chain, and are what the Spec computes; hence the
-         MAIN STATEMENT `abelian_invariants_eq_spec`: model output = Spec list, for every
-         presentation whose run stays below `isize::MAX`;
-  §8     all invariance clauses of the property.
-What is NOT true (§9): the unconditional statement — the `isize` code overflows on small inputs
-(finding F-C14-overflow); the theorems cover exactly the runs without overflow.
+         MAIN STATEMENT `abelian_invariants_correct`: model output = Spec list, for every
+         presentation over `±1 … ±n`;
+  §8     all invariance clauses of the property, unconditionally.
 
 Vocabulary:
   `Inv.InRange n g`      letter of a presentation on n generators: g ≠ 0 ∧ |g| ≤ n
@@ -34,9 +32,6 @@ Vocabulary:
   `Inv.zpat f`           zero pattern `f.map (· = 0)`
   `Inv.Rect mat n m`     n rows, each of length m
   `Inv.toMatrix mat n m` the Mathlib `Matrix (Fin n) (Fin m) ℤ` with entries `mat[r][c]`
-  `Inv.SmallAt mat`      every entry has absolute value < isize::MAX
-  `Inv.SmallRun is mat`  `SmallAt` holds at the start of each outer iteration `i ∈ is` of
-                         `diagonalize_in_place` started on `mat`
 -/
 import DSymVerif.Proofs.InvariantsMeta
 import DSymVerif.Proofs.InvariantsBound
@@ -271,55 +266,35 @@ theorem clear_step_unimodular_cols (mat : Mat) (n m i col cnt : Nat) (hR : Rect 
 
 /-! ## 6. `diagonalize_in_place` computes a diagonal matrix unimodularly equivalent to its input -/
 
-/-- `find_pivot` returns a zero entry only if every entry of the remaining block is zero or has
-    absolute value ≥ `isize::MAX` (where the minimum search starts) -/
+/-- `find_pivot` returns a zero entry only if every entry of the remaining block is zero -/
 theorem find_pivot_complete (mat : Mat) (i n m : Nat) (hn : nrows mat = n) (hm : ncols mat = m)
     (h0 : get mat (findPivot mat i).1 (findPivot mat i).2 = 0) :
-    ∀ r c, i ≤ r → r < n → i ≤ c → c < m →
-      get mat r c = 0 ∨ isizeMax ≤ ((get mat r c).natAbs : Int) :=
+    ∀ r c, i ≤ r → r < n → i ≤ c → c < m → get mat r c = 0 :=
   findPivot_zero mat i n m hn hm h0
 
 example : get [[0, 0], [0, 0]] (findPivot [[0, 0], [0, 0]] 0).1 (findPivot [[0, 0], [0, 0]] 0).2 = 0 := by
   decide
 
-/-- ○ `diagonalize_equiv`: on an `n × m` matrix `A` the routine ends in `D` with all off-diagonal
-    entries zero and `D = U · A · V` for integer matrices `U`, `V` of determinant ±1 — provided
-    `find_pivot` never meets an entry of absolute value ≥ `isize::MAX` (`SmallRun`; true for every
-    run of the Rust code without overflow, except for the single value `isize::MAX`). -/
+/-- `diagonalize_equiv`: on an `n × m` matrix `A` the routine ends in `D` with all off-diagonal
+    entries zero and `D = U · A · V` for integer matrices `U`, `V` of determinant ±1. -/
 theorem diagonalize_equiv (mat D : Mat) (n m : Nat) (hR : Rect mat n m) (hn : 0 < n)
-    (hS : SmallRun (List.range (min n m)) mat) (h : diagonalize mat = some D) :
+    (h : diagonalize mat = some D) :
     (∀ r c, r < n → c < m → r ≠ c → get D r c = 0) ∧
     ∃ (U : Matrix (Fin n) (Fin n) ℤ) (V : Matrix (Fin m) (Fin m) ℤ),
       (U.det = 1 ∨ U.det = -1) ∧ (V.det = 1 ∨ V.det = -1) ∧
       U * toMatrix mat n m * V = toMatrix D n m :=
-  diagonalize_equiv' mat D n m hR hn hS h
+  diagonalize_equiv' mat D n m hR hn h
 
-/-- non-vacuity: a 1 × 1 instance of all hypotheses -/
-example : Rect [[-3]] 1 1 ∧ 0 < 1 ∧ SmallRun (List.range (min 1 1)) [[-3]] := by
-  refine ⟨⟨rfl, by intro row hrow; simp at hrow; subst hrow; rfl⟩, by decide, ?_⟩
-  have small : ∀ M : Mat, (∀ r c, (get M r c).natAbs ≤ 3) → SmallAt M := by
-    intro M hM r c
-    have := hM r c
-    unfold isizeMax
-    omega
-  show SmallRun [0] [[-3]]
-  refine ⟨small _ ?_, fun M _ => trivial⟩
-  intro r c
-  unfold Inv.get
-  rcases r with _ | r
-  · rcases c with _ | c
-    · decide
-    · simp
-  · simp
+example : Rect [[-3, 6], [9, 4]] 2 2 ∧ 0 < 2 ∧
+    diagonalize [[-3, 6], [9, 4]] = some [[3, 0], [0, 22]] := by
+  refine ⟨⟨rfl, by intro row hrow; simp at hrow; rcases hrow with rfl | rfl <;> rfl⟩, by decide,
+    by decide +kernel⟩
 
-/-- the side condition holds for every run the `isize` implementation can represent: if the
-    largest intermediate absolute value of the instrumented model stays below `isize::MAX`,
-    `find_pivot` never overlooks an entry -/
-theorem small_run_of_bound (mat : Mat) (n m b0 : Nat) (hR : Rect mat n m) (hn : 0 < n)
-    (hf : ((diagonalizeB mat b0).2 : Int) < isizeMax) : SmallRun (List.range (min n m)) mat :=
-  smallRun_of_bound mat n m b0 hR hn hf
-
-example : Rect [[-3]] 1 1 ∧ 0 < 1 := ⟨⟨rfl, by intro row hrow; simp at hrow; subst hrow; rfl⟩, by decide⟩
+/-- the zeros of the diagonal are at its end -/
+theorem diagonal_zeros_trailing (mat D : Mat) (n m : Nat) (hR : Rect mat n m) (hn : 0 < n)
+    (h : diagonalize mat = some D) :
+    ∀ i j, i < j → j < min n m → get D i i = 0 → get D j j = 0 :=
+  diagonalize_tail mat D n m hR hn h
 
 /-! ## 7. determinantal divisors; the main statement -/
 
@@ -352,25 +327,33 @@ theorem spec_divisor_is_determinantal_divisor (a : Mat) (r n k : Nat) (hR : Rect
     SpecC14.detDivisor a n k = dk (toMatrix a r n) k :=
   detDivisor_eq_dk a r n k hR
 
-/-- **main statement** (`abelian_invariants_statement` for the runs without `isize` overflow):
-    for every presentation over `±1 … ±n` on which the largest intermediate absolute value of
-    the computation stays below `isize::MAX`, the model of `abelian_invariants` returns exactly
-    the list the Spec defines: the invariant factors `d_k / d_{k−1} ≠ 1` of the relation matrix
-    (quotients of its determinantal divisors) and one `0` per free generator, ascending. -/
+/-- **main statement**: for every number of generators and every list of relators over `±1 … ±n`
+    the model of `abelian_invariants` returns exactly the list the Spec defines: the invariant
+    factors `d_k / d_{k−1} ≠ 1` of the relation matrix (quotients of its determinantal divisors)
+    and one `0` per free generator, ascending. -/
+theorem abelian_invariants_correct (n : Nat) (rels : List (List Int))
+    (hin : ∀ w ∈ rels, ∀ g ∈ w, InRange n g) :
+    abelianInvariants n rels = .ok (SpecC14.expected n rels) :=
+  abelianInvariants_eq_expected n rels hin
+
+/-- the statement of the property as a closed proposition … -/
+def abelian_invariants_statement : Prop :=
+  ∀ (n : Nat) (rels : List (List Int)), (∀ w ∈ rels, ∀ g ∈ w, InRange n g) →
+    abelianInvariants n rels = .ok (SpecC14.expected n rels)
+
+/-- … holds -/
+theorem abelian_invariants_statement_holds : abelian_invariants_statement :=
+  fun n rels hin => abelian_invariants_correct n rels hin
+
+/-- former name and form (with the no-overflow hypothesis that was needed while the code computed
+    over `isize`; the hypothesis is no longer used) -/
 theorem abelian_invariants_eq_spec (n : Nat) (rels : List (List Int))
     (hin : ∀ w ∈ rels, ∀ g ∈ w, InRange n g)
-    (hb : ((abelianInvariantsB n rels).2 : Int) < isizeMax) :
+    (_hb : ((abelianInvariantsB n rels).2 : Int) < isizeMax) :
     abelianInvariants n rels = .ok (SpecC14.expected n rels) :=
-  abelianInvariants_eq_expected n rels hin hb
+  abelian_invariants_correct n rels hin
 
-/-- the same under the weaker side condition `SmallRun` on the idealised integer run -/
-theorem abelian_invariants_eq_spec_of_small_run (n : Nat) (rels : List (List Int))
-    (hin : ∀ w ∈ rels, ∀ g ∈ w, InRange n g)
-    (hS : SmallRun (List.range (min rels.length n)) (SpecC14.relMatrix n rels)) :
-    abelianInvariants n rels = .ok (SpecC14.expected n rels) :=
-  abelianInvariants_eq_expected_of_smallRun n rels hin hS
-
-/-- non-vacuity of both hypotheses, and the statement at work: `⟨a, b | a², b³⟩` gives `[6]` -/
+/-- non-vacuity, and the statement at work: `⟨a, b | a², b³⟩` gives `[6]` -/
 example : (∀ w ∈ ([[1, 1], [2, 2, 2]] : List (List Int)), ∀ g ∈ w, InRange 2 g) ∧
     ((abelianInvariantsB 2 [[1, 1], [2, 2, 2]]).2 : Int) < isizeMax ∧
     abelianInvariants 2 [[1, 1], [2, 2, 2]] = .ok [6] ∧
@@ -381,7 +364,7 @@ example : (∀ w ∈ ([[1, 1], [2, 2, 2]] : List (List Int)), ∀ g ∈ w, InRan
 
 The Spec list depends only on `n` and the determinantal divisors; these depend only on the row
 lattice of the relation matrix and do not change under signed permutations of its columns.  With
-the main statement the model's result inherits every invariance, for all runs without overflow.
+the main statement the model's result inherits every invariance.
 
   `InLat n rels w`      the exponent-sum vector of `w` is an integer combination of those of `rels`
   `RowsIn n rels rels'` every `w' ∈ rels'` satisfies `InLat n rels w'`
@@ -405,31 +388,24 @@ theorem spec_rename_generators {n : Nat} (π : Equiv.Perm (Fin n)) (flip : Fin n
 /-- general form for the relator clauses: same row lattice, same result -/
 theorem invariants_same_row_lattice (n : Nat) (rels rels' : List (List Int))
     (hin : ∀ w ∈ rels, ∀ g ∈ w, InRange n g) (hin' : ∀ w ∈ rels', ∀ g ∈ w, InRange n g)
-    (hb : ((abelianInvariantsB n rels).2 : Int) < isizeMax)
-    (hb' : ((abelianInvariantsB n rels').2 : Int) < isizeMax)
     (h1 : RowsIn n rels rels') (h2 : RowsIn n rels' rels) :
     abelianInvariants n rels' = abelianInvariants n rels :=
-  abelianInvariants_same_lattice n rels rels' hin hin' hb hb' h1 h2
+  abelianInvariants_same_lattice n rels rels' hin hin' h1 h2
 
 /-- reordering the relators -/
 theorem invariants_reorder (n : Nat) (rels rels' : List (List Int)) (hp : rels'.Perm rels)
-    (hin : ∀ w ∈ rels, ∀ g ∈ w, InRange n g)
-    (hb : ((abelianInvariantsB n rels).2 : Int) < isizeMax)
-    (hb' : ((abelianInvariantsB n rels').2 : Int) < isizeMax) :
+    (hin : ∀ w ∈ rels, ∀ g ∈ w, InRange n g) :
     abelianInvariants n rels' = abelianInvariants n rels :=
   abelianInvariants_same_lattice n rels rels' hin
-    (fun w hw => hin w (hp.mem_iff.mp hw)) hb hb'
+    (fun w hw => hin w (hp.mem_iff.mp hw))
     (rowsIn_reorder n rels rels' hp).1 (rowsIn_reorder n rels rels' hp).2
 
 /-- inverting any of the relators -/
 theorem invariants_invert_relators (n : Nat) (rels rels' : List (List Int))
     (h : List.Forall₂ (fun w w' => w' = w ∨ w' = FW.inverse w) rels rels')
-    (hin : ∀ w ∈ rels, ∀ g ∈ w, InRange n g)
-    (hb : ((abelianInvariantsB n rels).2 : Int) < isizeMax)
-    (hb' : ((abelianInvariantsB n rels').2 : Int) < isizeMax) :
+    (hin : ∀ w ∈ rels, ∀ g ∈ w, InRange n g) :
     abelianInvariants n rels' = abelianInvariants n rels := by
   have hin' : ∀ w ∈ rels', ∀ g ∈ w, InRange n g := by
-    clear hb hb'
     induction h with
     | nil => intro w hw; simp at hw
     | @cons w w' ws ws' hw _ ih =>
@@ -439,15 +415,13 @@ theorem invariants_invert_relators (n : Nat) (rels rels' : List (List Int))
         · exact hin _ List.mem_cons_self
         · exact inverse_inRange (hin w List.mem_cons_self)
       · exact ih (fun v hv => hin v (List.mem_cons_of_mem _ hv)) u hu
-  exact abelianInvariants_same_lattice n rels rels' hin hin' hb hb'
+  exact abelianInvariants_same_lattice n rels rels' hin hin'
     (rowsIn_invert n rels rels' h).1 (rowsIn_invert n rels rels' h).2
 
 /-- appending products of existing relators (and of their inverses) -/
 theorem invariants_append_products (n : Nat) (rels extra : List (List Int))
     (h : ∀ u ∈ extra, RelProd rels u)
-    (hin : ∀ w ∈ rels, ∀ g ∈ w, InRange n g)
-    (hb : ((abelianInvariantsB n rels).2 : Int) < isizeMax)
-    (hb' : ((abelianInvariantsB n (rels ++ extra)).2 : Int) < isizeMax) :
+    (hin : ∀ w ∈ rels, ∀ g ∈ w, InRange n g) :
     abelianInvariants n (rels ++ extra) = abelianInvariants n rels := by
   have hprod : ∀ u, RelProd rels u → ∀ g ∈ u, InRange n g := by
     intro u hu
@@ -461,51 +435,27 @@ theorem invariants_append_products (n : Nat) (rels extra : List (List Int))
     rcases List.mem_append.mp hw with hw | hw
     · exact hin w hw
     · exact hprod w (h w hw)
-  exact abelianInvariants_same_lattice n rels (rels ++ extra) hin hin' hb hb'
+  exact abelianInvariants_same_lattice n rels (rels ++ extra) hin hin'
     (rowsIn_append n rels extra h).1 (rowsIn_append n rels extra h).2
 
 /-- renaming and inverting generators -/
 theorem invariants_rename_generators {n : Nat} (π : Equiv.Perm (Fin n)) (flip : Fin n → Bool)
-    (rels : List (List Int)) (hin : ∀ w ∈ rels, ∀ g ∈ w, InRange n g)
-    (hb : ((abelianInvariantsB n rels).2 : Int) < isizeMax)
-    (hb' : ((abelianInvariantsB n (rels.map (renameWord π flip))).2 : Int) < isizeMax) :
+    (rels : List (List Int)) (hin : ∀ w ∈ rels, ∀ g ∈ w, InRange n g) :
     abelianInvariants n (rels.map (renameWord π flip)) = abelianInvariants n rels :=
-  abelianInvariants_rename π flip rels hin hb hb'
+  abelianInvariants_rename π flip rels hin
 
 /-- non-vacuity of the hypotheses of this section on `⟨a, b | a², b³⟩` and its variants -/
 example :
     (∀ w ∈ ([[1, 1], [2, 2, 2]] : List (List Int)), ∀ g ∈ w, InRange 2 g) ∧
-    ((abelianInvariantsB 2 [[1, 1], [2, 2, 2]]).2 : Int) < isizeMax ∧
-    -- reorder
     ([[2, 2, 2], [1, 1]] : List (List Int)).Perm [[1, 1], [2, 2, 2]] ∧
-    ((abelianInvariantsB 2 [[2, 2, 2], [1, 1]]).2 : Int) < isizeMax ∧
-    -- invert the second relator
     List.Forall₂ (fun w w' => w' = w ∨ w' = FW.inverse w)
       ([[1, 1], [2, 2, 2]] : List (List Int)) [[1, 1], FW.inverse [2, 2, 2]] ∧
-    ((abelianInvariantsB 2 [[1, 1], FW.inverse [2, 2, 2]]).2 : Int) < isizeMax ∧
-    -- append the product of the two relators
-    (∀ u ∈ [FW.mul [1, 1] [2, 2, 2]], RelProd [[1, 1], [2, 2, 2]] u) ∧
-    ((abelianInvariantsB 2 ([[1, 1], [2, 2, 2]] ++ [FW.mul [1, 1] [2, 2, 2]])).2 : Int) < isizeMax ∧
-    -- swap the generators and invert the first
-    ((abelianInvariantsB 2 (([[1, 1], [2, 2, 2]] : List (List Int)).map
-      (renameWord (Equiv.swap (0 : Fin 2) 1) (fun k => decide (k = 0))))).2 : Int) < isizeMax := by
-  refine ⟨by decide, by decide +kernel, ?_, by decide +kernel, ?_, by decide +kernel, ?_,
-    by decide +kernel, by decide +kernel⟩
-  · exact List.Perm.swap _ _ _
-  · exact List.Forall₂.cons (Or.inl rfl) (List.Forall₂.cons (Or.inr rfl) List.Forall₂.nil)
-  · intro u hu
-    rw [List.mem_singleton] at hu
-    subst hu
-    exact RelProd.mul _ _ (RelProd.mem _ (by simp)) (RelProd.mem _ (by simp))
-
-/-! ## 9. what remains open -/
-
-/-- the unconditional form is FALSE for the model as written and for the code: beyond the bound
-    the Rust code overflows (finding F-C14-overflow) and `find_pivot` overlooks entries of
-    absolute value ≥ `isize::MAX`.  Kept as the statement of the property for an implementation
-    over unbounded integers. -/
-def abelian_invariants_statement : Prop :=
-  ∀ (n : Nat) (rels : List (List Int)), (∀ w ∈ rels, ∀ g ∈ w, InRange n g) →
-    abelianInvariants n rels = .ok (SpecC14.expected n rels)
+    (∀ u ∈ [FW.mul [1, 1] [2, 2, 2]], RelProd [[1, 1], [2, 2, 2]] u) := by
+  refine ⟨by decide, List.Perm.swap _ _ _,
+    List.Forall₂.cons (Or.inl rfl) (List.Forall₂.cons (Or.inr rfl) List.Forall₂.nil), ?_⟩
+  intro u hu
+  rw [List.mem_singleton] at hu
+  subst hu
+  exact RelProd.mul _ _ (RelProd.mem _ (by simp)) (RelProd.mem _ (by simp))
 
 end DSymVerif.C14
